@@ -268,7 +268,7 @@ async def validate(validator, wire):
 
 
 def check_single(ctx, rng):
-    n = ctx.n(208, 6500)
+    n = ctx.n(208, 16000)
     for i in range(n):
         depth = rng.randint(1, 4)
         dev = DEVIATIONS[i % len(DEVIATIONS)]
@@ -380,7 +380,7 @@ def check_anchor(ctx, rng):
 
 def check_histories(ctx, rng):
     """Several packets x several validator instances in different orders: verdicts must be order independent."""
-    for hi in range(ctx.n(14, 500)):
+    for hi in range(ctx.n(14, 1500)):
         depth = rng.randint(1, 3)
         H1 = Hierarchy(rng, depth, 'aa%02x' % rng.getrandbits(8))
         H2 = Hierarchy(rng, depth, 'bb%02x' % rng.getrandbits(8))
